@@ -317,7 +317,7 @@ pub fn property() -> Property {
             name: "history",
             rule: "one bar on a VTerm of 1..=12 rows x 1..=40 (thorough 200) columns with a random simple template; 0-24 (thorough 40) ops from tick/inc/set_position/set_message/set_prefix/set_style/set_length/println/suspend/reset/finish*/abandon* with texts that are empty, zero-width, multi-line and around multiples of the width; after every flush and after every op the screen must equal printed lines ++ frame and the cursor must be on a fresh line; non-trivial = two painted frames of different height, or a text-only draw followed by a non-empty frame",
             strategy: case_strategy,
-            cases: |t| t.pick(4_000, 200_000),
+            cases: |t| t.pick(4_000, 800_000),
             run: run_bar,
             signature,
             essential: &["shrink", "grow", "wrap", "exact_multiple_of_width", "empty_first_line_frame", "text_only_draw", "frame_after_text_only_draw", "clear", "reset", "log_wraps"],
